@@ -1807,3 +1807,124 @@ Proof.
   - apply (nodup_flat_logs m); [exact Hnk|]. intros key l Hin. destruct (Hok key l Hin) as (H1 & H2 & _).
     split; [exact H1|]. intros a Ha. specialize (H2 a Ha). apply filter_In in H2. apply Z.eqb_eq. apply H2.
 Qed.
+
+(* ------------------------------------------------------------------ Part M: frames; strong lists *)
+(* the code run inside a callback leaves the stack of activation frames as it found it *)
+Definition keeps_frames (ex : executor) : Prop := forall self s a, cur (fst (ex self s a)) = cur s.
+
+Lemma cur_do_remove a keep s : cur (do_remove a keep s) = cur s.
+Proof.
+  unfold do_remove. destruct (alive s a); [|reflexivity].
+  destruct (deregister_same a s) as (_ & _ & Hc). destruct keep; cbn [cur sweep set_sets set_ext]; exact Hc.
+Qed.
+
+Lemma cur_create_n n c keep : forall s, cur (create_n n c keep s) = cur s.
+Proof. induction n as [|n IH]; intros s; simpl; [reflexivity|]. rewrite IH. reflexivity. Qed.
+
+Lemma cur_exec_act self s a : cur (exec_act self s a) = cur s.
+Proof.
+  destruct a; simpl; try reflexivity.
+  - apply cur_do_remove.
+  - apply cur_do_remove.
+  - apply cur_create_n.
+  - destruct (alive s i); reflexivity.
+Qed.
+
+Lemma keeps_ex0 : keeps_frames ex0.
+Proof. intros self s a. apply cur_exec_act. Qed.
+
+Lemma run_acts_cur ex self l : keeps_frames ex -> forall s, cur (fst (run_acts ex self l s)) = cur s.
+Proof.
+  intros K. induction l as [|a t IH]; intros s; simpl; [reflexivity|].
+  pose proof (K self s a) as Ha. destruct (ex self s a) as [s1 rz]. cbn [fst] in Ha.
+  destruct rz; [exact Ha|]. rewrite IH. exact Ha.
+Qed.
+
+Lemma visit1_tl ex sc r s : keeps_frames ex -> tl (cur (fst (visit1 ex sc r s))) = tl (cur s).
+Proof.
+  intros K. unfold visit1. destruct (alive s r); [|reflexivity]. rewrite (run_acts_cur ex r _ K). reflexivity.
+Qed.
+
+Lemma visit_tl ex sc order s : keeps_frames ex -> tl (cur (vst (visit ex sc order s))) = tl (cur s).
+Proof.
+  intros K. apply (visit_ind_state ex (fun s' => tl (cur s') = tl (cur s))); [|reflexivity].
+  intros r s' H. rewrite (visit1_tl ex sc r s' K). exact H.
+Qed.
+
+Lemma activate_cur ex k perm sc snap s s' log rz :
+  keeps_frames ex -> activate ex k perm sc snap s = Some (s', log, rz) -> cur s' = cur s.
+Proof.
+  intros K H. apply activate_spec in H. destruct H as (order & _ & _ & _ & ->).
+  cbn [cur sweep set_sets pop_frame set_frames]. rewrite (visit_tl ex sc order _ K). reflexivity.
+Qed.
+
+Lemma keeps_ex_next inner sc2 : keeps_frames inner -> keeps_frames (ex_next inner sc2).
+Proof.
+  intros K self s a. destruct a; try apply keeps_ex0.
+  - destruct (ex_next_nested_cases inner sc2 self s _ k r perm (or_introl eq_refl))
+      as [Hc|[(l & Hc)|(snap & s' & log & rz & l & E & Hc)]]; rewrite Hc; try reflexivity.
+    cbn [cur set_nlog]. apply (activate_cur inner _ _ _ _ _ _ _ _ K E).
+  - destruct (ex_next_nested_cases inner sc2 self s _ k r perm (or_intror eq_refl))
+      as [Hc|[(l & Hc)|(snap & s' & log & rz & l & E & Hc)]]; rewrite Hc; try reflexivity.
+    cbn [cur set_nlog]. apply (activate_cur inner _ _ _ _ _ _ _ _ K E).
+Qed.
+
+Lemma keeps_exN scs : keeps_frames (exN scs).
+Proof. induction scs as [|sc2 rest IH]; [apply keeps_ex0|apply keeps_ex_next; exact IH]. Qed.
+
+(* agents held by a strong container (deeper in the frame stack) are alive at their turn: unless an
+   exception ends the loop, every one of them is called, whatever the callbacks remove *)
+Lemma visit_held ex sc order : keeps_frames ex -> forall s,
+  (forall a, In a order -> In (Some a) (tl (cur s))) ->
+  vrz (visit ex sc order s) = false -> vlog (visit ex sc order s) = order.
+Proof.
+  intros K. induction order as [|r t IH]; intros s Hh Hz; [reflexivity|].
+  rewrite visit_cons in *.
+  assert (alive s r = true) as Ha.
+  { apply alive_spec. right. right. apply in_tl. apply Hh. left. reflexivity. }
+  rewrite Ha in *. destruct (snd (visit1 ex sc r s)); [discriminate Hz|].
+  unfold vlog, vrz in *. cbn [fst snd] in *. f_equal. apply IH; [|exact Hz].
+  intros a Hin. rewrite (visit1_tl ex sc r s K). apply Hh. right. exact Hin.
+Qed.
+
+Lemma visit_lists_all ex sc gs : keeps_frames ex -> forall s s' logs rz,
+  (forall key g a, In (key, g) gs -> In a g -> In (Some a) (cur s)) ->
+  visit_lists ex sc gs s = (s', logs, rz) -> rz = false -> logs = gs.
+Proof.
+  intros K. induction gs as [|[key g] gs IH]; intros s s' logs rz Hh; simpl.
+  - intros H _. inversion H. reflexivity.
+  - destruct (visit ex sc g (push_frame s)) as [[s1 log1] rz1] eqn:E.
+    destruct rz1; [intros H Hz; inversion H; subst; discriminate|].
+    destruct (visit_lists ex sc gs (sweep (pop_frame s1))) as [[s2 logs2] rz2] eqn:E2.
+    intros H Hz. inversion H; subst. f_equal.
+    + f_equal. pose proof (visit_held ex sc g K (push_frame s)) as Hv. rewrite E in Hv.
+      apply Hv; [|reflexivity]. intros a Ha. cbn [cur push_frame set_frames tl]. apply (Hh key g a); [left; reflexivity|exact Ha].
+    + eapply IH; [|exact E2|reflexivity]. intros k0 g0 a Hin Ha.
+      cbn [cur sweep set_sets pop_frame set_frames].
+      pose proof (visit_tl ex sc g (push_frame s) K) as Ht. rewrite E in Ht. unfold vst in Ht. cbn [fst] in Ht.
+      rewrite Ht. cbn [cur push_frame set_frames tl]. apply (Hh k0 g0 a); [right; exact Hin|exact Ha].
+Qed.
+
+(* groupby(result_type="list").do/map(callable): unless a callback raises, every member at groupby time
+   is reached exactly once, group by group in first-seen key order - removed or not *)
+Lemma group_lists_all scs sc m members s s' logs :
+  group_lists (exN scs) sc m members s = (s', logs, false) -> logs = groups_of m members.
+Proof.
+  unfold group_lists.
+  destruct (visit_lists (exN scs) sc (groups_of m members) (hold members s)) as [[s1 logs1] rz1] eqn:E.
+  intros H. inversion H; subst.
+  eapply (visit_lists_all (exN scs) sc _ (keeps_exN scs)); [|exact E|reflexivity].
+  intros key g a Hin Ha. rewrite (groups_of_spec m members key g Hin) in Ha. apply filter_In in Ha.
+  cbn [cur hold set_frames]. apply in_or_app. left. apply in_map. apply Ha.
+Qed.
+
+Lemma try_nested_never_raises inner sc2 self s k r perm :
+  snd (ex_next inner sc2 self s (TryNested k r perm)) = false.
+Proof.
+  cbn [ex_next]. destruct (lookup r (sets s)) as [snap|]; [|reflexivity].
+  destruct (activate inner k perm sc2 snap s) as [[[s' log] rz]|]; reflexivity.
+Qed.
+
+Lemma activate_frames_restored scs k perm sc snap s s' log rz :
+  activate (exN scs) k perm sc snap s = Some (s', log, rz) -> cur s' = cur s.
+Proof. apply activate_cur. apply keeps_exN. Qed.
